@@ -119,6 +119,51 @@ def run_shard(tier, seed, shard, n, R):
         R.count("random_programs")
         if j == 0:
             R.sample({"case": "random:%d" % s, "source": src})
+        if j % 10 == 0:
+            check_linked_split(R, rng, "split:%d" % s)
+
+
+def check_linked_split(R, rng, label):
+    """several modules importing each other, linked: call targets and arities across module boundaries"""
+    import os
+    import pickle
+    import shutil
+    import tempfile
+    from ..gen import modules as gmod
+    sp = gmod.gen(rng)
+    tmp = tempfile.mkdtemp(prefix="nslverif_c14_")
+    old = os.getcwd()
+    try:
+        os.chdir(tmp)
+        mods = {}
+        for name in [n for n, _, _ in sp.libs] + [n for n, _, _, _ in sp.roots]:
+            out = nslapi.compile_source(sp.layouts[name][0], optimize=bool(rng.getrandbits(1)))
+            if not out.usable:
+                R.count("split_module_not_compiled(C16 territory)")
+                return
+            with open(name + ".nslir", "wb") as f:
+                pickle.dump(out.ir, f)
+            mods[name] = out.ir
+        roots = [mods[n] for n, _, _, _ in sp.roots]
+        try:
+            with nslapi.quiet():
+                loader = nslapi.LinearIR.FilesystemModuleLoader()
+                linker = nslapi.LinearIR.Linker(loader=loader)
+                for m in roots:
+                    linker.AddModule(m)
+                program = linker.Link()
+        except Exception as e:
+            R.count("split_link_failed(C16 territory)")
+            return
+        R.evaluations += 1
+        R.count("linked_multi_module_programs_checked")
+        for f in irwf.check_program(program):
+            R.violation("%s:linked-multi-module" % f["rule"], "%s: %s in %s of a program linked from %d modules: %s" % (label, f["rule"], f["fn"], len(mods), f),
+                        {"sources": {n: sp.layouts[n][0] for n in sp.layouts}, "finding": f, "pass": "link"})
+        R.nontriv(repr(sorted((n, sp.layouts[n][0]) for n in sp.layouts)))
+    finally:
+        os.chdir(old)
+        shutil.rmtree(tmp, ignore_errors=True)
 
 
 def finalize(M, tier):
